@@ -27,6 +27,9 @@ CORPUS = [
     '(assert (distinct))', '(assert (<))', '(assert (/ 1))', '(assert (/ 1 0))', '(declare-datatype)', '(declare-datatypes)',
     '(assert (let ((x (_ bv0 (a)))) x))', '(assert (let ((x ((_ extract (1) 2) c))) x))', '(assert (let ((x ((_ zero_extend ()) c))) x))',
     '(assert (let ((x (_ bv0))) x))', '(assert (let ((x (fp a))) x))', '(assert (let ((x (select))) x))', '(assert (let ((x (ite))) x))',
+    '(declare-const x Int)(assert (> x ' + '9' * 320 + '))', '(declare-const x Real)(assert (> x ' + '9' * 320 + '.5))',
+    '(assert (= (_ bv1 100000) (_ bv1 100000)))', '(declare-const v (_ BitVec 100000))(assert (= v ((_ zero_extend 99999) #b1)))',
+    '(declare-const s String)(assert (= s "' + 'a' * 5000 + '"))', '(assert ' + '(not ' * 300 + 'true' + ')' * 300 + ')',
     '(define-sort)', '(define-sort S)', '(assert (forall ((x Int))))', '(assert ((_ divisible)))', '(assert ((_ to_fp 8) x))',
 ]
 
@@ -168,6 +171,63 @@ def run(ctx):
         if bad:
             ctx.violation('impl-violation', input=t, observed=f"internal error in {bad['stage']}: {bad['exception']}", traceback=bad['tb'],
                           expected='no exception escapes the main-process code', how_to_replay='./check C04 --replay <file>')
+    # ---- (1b) fault injection: a mutator that raises ANY exception class costs only its own candidates (theorem mutator_isolated)
+    from ddsmt import mutators_core, strategy_ddmin, strategy_hierarchical, smtlib, options, mutators
+
+    class NoAbort:
+        def is_set(self):
+            return False
+    ns2 = options.parse_options(mutators, ['in.smt2', 'out.smt2', 'cmd'])
+    setattr(options, '__PARSED_ARGS', ns2)
+    base_text = '(set-logic ALL)\n(declare-const x Int)\n(declare-const y Int)\n(assert (> (+ x y 10) 100))\n(assert (< x y))\n(check-sat)\n'
+    excs = [OverflowError, ZeroDivisionError, RecursionError, KeyError, UnicodeDecodeError, StopIteration, RuntimeError, NotImplementedError,
+            ArithmeticError, OSError, EOFError, LookupError, ValueError, TypeError, AssertionError, MemoryError]
+
+    def names_of(exprs, skip_cls):
+        res = []
+        passes = strategy_hierarchical.get_passes()
+        ms, params = strategy_hierarchical.get_pass(passes, len(passes) - 1)
+        for t in strategy_hierarchical.Producer(ms, NoAbort(), exprs).generate(0, params):
+            res.append((t.nodeid, t.name))
+        dd = []
+        for ps, md in zip(strategy_ddmin.ddmin_passes(), (1, None)):
+            for m in ps:
+                for t in strategy_ddmin.TaskGenerator(exprs, 1, m, md):
+                    dd.append((type(m).__name__, t.id))
+        return res, dd
+    import contextlib
+    import io
+    exprs0 = impl.parse(base_text)
+    smtlib.collect_information(exprs0)
+    with contextlib.redirect_stderr(io.StringIO()):
+        ref_h, ref_d = names_of(exprs0, None)
+    victim = mutators_core.ReplaceByChild
+    vname = str(victim())
+    for exc in excs:
+        for where in ('filter', 'mutations'):
+            orig = getattr(victim, where)
+
+            def boom(self, *a, _exc=exc, **k):
+                if _exc is UnicodeDecodeError:
+                    raise UnicodeDecodeError('utf-8', b'x', 0, 1, 'injected')
+                raise _exc('injected by the C04 check')
+            setattr(victim, where, boom)
+            try:
+                with contextlib.redirect_stderr(io.StringIO()), common.time_limit(30):
+                    got_h, got_d = names_of(exprs0, victim)
+                want_h = [x for x in ref_h if x[1] != vname]
+                want_d = [x for x in ref_d if x[0] != 'ReplaceByChild']
+                if got_h != want_h or got_d != want_d:
+                    ctx.violation('impl-violation', input=base_text, observed=f'{exc.__name__} raised in ReplaceByChild.{where} changed the candidates of OTHER mutators '
+                                  f'(hierarchical {len(got_h)} vs {len(want_h)}, ddmin {len(got_d)} vs {len(want_d)})',
+                                  expected='only that mutator\'s candidates are lost')
+            except Exception as e:  # noqa
+                ctx.violation('impl-violation', input=base_text, observed=f'{exc.__name__} raised inside ReplaceByChild.{where} escaped the candidate generation: {type(e).__name__}: {e}',
+                              expected='a failure inside one mutator costs only that mutator\'s candidates', how_to_replay='./check C04 --quick')
+            finally:
+                setattr(victim, where, orig)
+            ctx.case(['inject', exc.__name__, where], True)
+            ctx.count('exception classes injected into a mutator')
     # ---- (2) executables
     d = tempfile.mkdtemp(prefix='verif-c04-', dir=e2e.SCRATCH_ROOT)
     try:
